@@ -19,6 +19,7 @@ import (
 	"os"
 	"sort"
 	"strings"
+	"sync"
 	"time"
 
 	"github.com/CorentinB/warc"
@@ -44,6 +45,9 @@ type doc struct {
 	Server string   `json:"server,omitempty"`
 	Body   string   `json:"body"`
 	Assets []string `json:"assets"` // the URLs the document embeds (answered according to the case's answer vector)
+	// Must: URLs that must have been requested when the seed is complete (assets capture on): removing the rejected
+	// children of a node must not take the others with it
+	Must []string `json:"must_be_requested,omitempty"`
 }
 
 func docs() []doc {
@@ -56,7 +60,22 @@ func docs() []doc {
 			`<Contents><Key>k1.png</Key><Size>3</Size></Contents><Note>` + a1 + `</Note><Note>` + a2 + `</Note>` + extra + `</ListBucketResult>`
 	}
 	feed := `<?xml version="1.0" encoding="UTF-8"?><rss version="2.0"><channel><title>t</title><link>` + H + `/next</link><item><enclosure url="` + a1 + `"/><enclosure url="` + a2 + `"/></item></channel></rss>`
+	// a wide node: 40 images, 30 of which the preprocessor rejects (hosts it refuses), 10 it keeps
+	var wide strings.Builder
+	var wideKeep []string
+	wide.WriteString(`<!DOCTYPE html><html><body>`)
+	for i := 0; i < 40; i++ {
+		if i%4 == 3 {
+			u := fmt.Sprintf("%s/w/keep%02d.png", H, i)
+			wideKeep = append(wideKeep, u)
+			fmt.Fprintf(&wide, `<img src="%s">`, u)
+		} else {
+			fmt.Fprintf(&wide, `<img src="http://localhost/w/drop%02d.png">`, i)
+		}
+	}
+	wide.WriteString(`</body></html>`)
 	return []doc{
+		{Name: "html-wide", URL: H + "/wide", CT: "text/html; charset=utf-8", Body: wide.String(), Assets: wideKeep[:2], Must: wideKeep},
 		{Name: "html", URL: H + "/page", CT: "text/html; charset=utf-8", Body: `<!DOCTYPE html><html><body><img src="/m/a1.png"><img src="/m/a2.png"><a href="/next">n</a></body></html>`, Assets: []string{a1, a2}},
 		{Name: "html-no-assets", URL: H + "/page", CT: "text/html; charset=utf-8", Body: `<!DOCTYPE html><html><body><a href="/next">n</a></body></html>`},
 		{Name: "json", URL: H + "/doc.json", CT: "application/json", Body: `{"a":"` + a1 + `","b":"` + a2 + `","n":"` + H + `/next"}`, Assets: []string{a1, a2}},
@@ -195,6 +214,8 @@ func count(seed *models.Item) (n int) {
 var (
 	archIn, archOut chan *models.Item
 	curSite         map[string]answer
+	reqMu           sync.Mutex
+	requested       map[string]int
 )
 
 type siteTransport struct{}
@@ -218,6 +239,9 @@ func (c *cutBody) Read(p []byte) (int, error) {
 func (c *cutBody) Close() error { return nil }
 
 func (siteTransport) RoundTrip(req *http.Request) (*http.Response, error) {
+	reqMu.Lock()
+	requested[req.URL.String()]++
+	reqMu.Unlock()
 	a, ok := curSite[req.URL.String()]
 	if !ok {
 		a = answer{status: 404, ct: "text/plain", body: "unknown"}
@@ -264,14 +288,14 @@ func fetch(seed *models.Item, s map[string]answer, c caseSpec) {
 
 func runCase(c caseSpec) (v verdict) {
 	v = verdict{Case: c}
+	if archIn == nil {
+		startArchiver() // before the case's configuration is installed: it installs one of its own for the start-up
+	}
 	d := docs()[c.Doc]
 	s := site(c, d)
 	config.VerifSet(&config.Config{MaxHops: c.MaxHops, DisableAssetsCapture: c.DAC, MaxRedirect: 5, MaxRetry: 0, UserAgent: "verif-c11b", UseSeencheck: c.Seen, DisableSeencheck: !c.Seen, WARCTempDir: tmpDir,
 		WorkersCount: 1, MaxConcurrentAssets: 2, DisableRateLimit: true, WARCWriteAsync: true, NoStdoutLogging: true, NoStderrLogging: true, NoFileLogging: true, HTTPReadDeadline: 60})
 	domainscrawl.Reset()
-	if archIn == nil {
-		startArchiver()
-	}
 	stage := "harness"
 	defer func() {
 		if r := recover(); r != nil {
@@ -292,6 +316,9 @@ func runCase(c caseSpec) (v verdict) {
 		}
 		defer seencheck.Close()
 	}
+	reqMu.Lock()
+	requested = map[string]int{}
+	reqMu.Unlock()
 	start := d.URL
 	if c.Behind {
 		start = "http://old.example/start"
@@ -342,6 +369,16 @@ func runCase(c caseSpec) (v verdict) {
 			v.Sig, v.Reason = "incomplete-with-nothing-pending:"+d.Name, fmt.Sprintf("round %d: the seed is not declared complete although no node awaits fetching or post-processing\n%s", v.Rounds, seed.DrawTree())
 			return
 		case complete:
+			if !c.DAC {
+				reqMu.Lock()
+				defer reqMu.Unlock()
+				for _, u := range d.Must {
+					if requested[u] == 0 {
+						v.Sig, v.Reason = "url-discarded:"+d.Name, fmt.Sprintf("the seed is complete and %s, a requisite the preprocessor accepted, was never requested (requested: %d URLs)\n%s", u, len(requested), seed.DrawTree())
+						return
+					}
+				}
+			}
 			return
 		}
 	}
